@@ -267,6 +267,66 @@ def real_check(cls):
         return 'warn'
 
 
+def interleaved_registration(ctx):
+    """another thread registers an opt-in class while a non-opt-in graph is being dumped: simulated at line granularity -
+    a trace function runs the registration at the k-th line event that remote_pickle's own code executes during the dump,
+    for every k. The dump must still equal pickle.dumps."""
+    import os
+    import sys
+    from pyworkers import remote_pickle
+    from pyworkers.remote_pickle import SupportRemoteGetState
+    root = os.path.dirname(os.path.abspath(remote_pickle.__file__))
+    graph = {'k': [1, 2, (3, 'x')], 'p': PlainObj(a=1), 's': {1, 2}}
+    want = pickle.dumps(graph, protocol=4)
+    made = []
+
+    def register(k):
+        # both ways of opting in: the marker base class and, for the duck-typed way, a first remote dump
+        made.append(type(f'LateOptIn{k}', (SupportRemoteGetState,), {'__getstate__': lambda self, remote=False: {}}))
+
+    def run(k):
+        """returns (bytes or exception, number of line events seen)"""
+        seen = [0]
+
+        def local(frame, event, arg):
+            if event == 'line':
+                if seen[0] == k:
+                    seen[0] += 1
+                    sys.settrace(None)
+                    try:
+                        register(k)
+                    finally:
+                        sys.settrace(tr)
+                else:
+                    seen[0] += 1
+            return local
+
+        def tr(frame, event, arg):
+            if event == 'call' and frame.f_code.co_filename.startswith(root):
+                return local
+            return None
+        sys.settrace(tr)
+        try:
+            return remote_pickle.dumps(graph, protocol=4), seen[0]
+        except BaseException as e:  # noqa
+            return e, seen[0]
+        finally:
+            sys.settrace(None)
+    _, total = run(-1)
+    bad = None
+    for k in range(total):
+        out, _ = run(k)
+        ctx.case(('interleaved-registration', k), True, sample={'case': 'opt-in class registered at line event k of a dump of a non-opt-in graph', 'k': k, 'line_events': total} if k == 0 else None)
+        if not isinstance(out, bytes) or out != want:
+            bad = bad or (k, out)
+    ctx.count('interleaved-registration', total)
+    if bad:
+        k, out = bad
+        what = f'raised {type(out).__name__}: {out}' if not isinstance(out, bytes) else 'produced different bytes than pickle.dumps'
+        ctx.fail('nonoptin:concurrent-registration', f'remote_pickle.dumps of a graph without opt-in classes {what} when another opt-in class was registered '
+                 f'at line event {k} of {total} of the dump (as a second thread may do at any moment)', {'kind': 'interleaved_registration', 'k': k})
+
+
 def main(ctx: Ctx):
     ctx.assumptions += [
         'the CPython pickler (traversal, memo, opcode generation, its lookup order: type dispatch, dispatch_table, __reduce_ex__) is trusted; the reducer-choice model mirrors that order',
@@ -392,9 +452,19 @@ def main(ctx: Ctx):
             if (m == 'remote1') != (observed == 'remote1'):
                 ctx.broke('correspondence', 'Mro.remoteChoice vs RemotePickler', f'{name} remote={remote}: model {m}, observed flags {flags}')
 
+    interleaved_registration(ctx)
+
 
 def replay(case):
     print(case)
+    if case.get('kind') == 'interleaved_registration':
+        class C:
+            def case(self, *a, **k): pass
+            def count(self, *a, **k): pass
+            def fail(self, sig, what, desc): print('FAIL', sig, what)
+        interleaved_registration(C())
+        print('done')
+        return
     if 'mro' in case:
         feats = {'0n': 'n', '0r': 'r', '0k': 'k', '0p': 'p', '1n': 'R'}
         cls = None
